@@ -414,21 +414,29 @@ func (grid *RegularGrid) removeQuadFromCell(toRemove *Quad, x uint, y uint) {
 
 func (grid *RegularGrid) mergeQuads(existingQuad *Quad, newQuad *Quad) {
 
-	minPoint := Sub(existingQuad.Center, existingQuad.Extents)
-	maxPoint := Add(existingQuad.Center, existingQuad.Extents)
-	minXGridCoord0 := (uint)(math.Floor(grid.cellCoord(minPoint.x, grid.Min.x)))
-	minYGridCoord0 := (uint)(math.Floor(grid.cellCoord(minPoint.z, grid.Min.z)))
-	maxXGridCoord0 := (uint)(math.Floor(grid.cellCoord(maxPoint.x, grid.Min.x)))
-	maxYGridCoord0 := (uint)(math.Floor(grid.cellCoord(maxPoint.z, grid.Min.z)))
+	oldMinPoint := Sub(existingQuad.Center, existingQuad.Extents)
+	oldMaxPoint := Add(existingQuad.Center, existingQuad.Extents)
 
 	centerDiff := Sub(newQuad.Center, existingQuad.Center)
 	extentsDiff := Sub(newQuad.Extents, existingQuad.Extents)
 	existingQuad.Center.Add(Mul(centerDiff, 0.2))
 	existingQuad.Extents.Add(Mul(extentsDiff, 0.2))
 
+	// The merged footprint lies between the two footprints, which both fit the
+	// grid, but rounding can push one of its edges just outside: fit the grid
+	// first, then take every cell coordinate relative to the (possibly moved)
+	// origin.
+	minPoint := Sub(existingQuad.Center, existingQuad.Extents)
+	maxPoint := Add(existingQuad.Center, existingQuad.Extents)
+	grid.ExpandToFitPoint(&minPoint)
+	grid.ExpandToFitPoint(&maxPoint)
+
+	minXGridCoord0 := (uint)(math.Floor(grid.cellCoord(oldMinPoint.x, grid.Min.x)))
+	minYGridCoord0 := (uint)(math.Floor(grid.cellCoord(oldMinPoint.z, grid.Min.z)))
+	maxXGridCoord0 := (uint)(math.Floor(grid.cellCoord(oldMaxPoint.x, grid.Min.x)))
+	maxYGridCoord0 := (uint)(math.Floor(grid.cellCoord(oldMaxPoint.z, grid.Min.z)))
+
 	// calculate the min cell and max cell again:
-	minPoint = Sub(existingQuad.Center, existingQuad.Extents)
-	maxPoint = Add(existingQuad.Center, existingQuad.Extents)
 	minXGridCoord1 := (uint)(math.Floor(grid.cellCoord(minPoint.x, grid.Min.x)))
 	minYGridCoord1 := (uint)(math.Floor(grid.cellCoord(minPoint.z, grid.Min.z)))
 	maxXGridCoord1 := (uint)(math.Floor(grid.cellCoord(maxPoint.x, grid.Min.x)))
